@@ -2,7 +2,7 @@
    with the model of the real pipeline (Expand.parse_string, TcTop.typecheck, init_config). *)
 From stdpp Require Import gmap strings sorting.
 Require Import Grits.Base Grits.Forms Grits.Expand Grits.TcTop Grits.Runtime.
-Require Import Grits.RuntimeFootprint Grits.proofs.RuntimeFacts Grits.proofs.Diamond Grits.proofs.Determinism.
+Require Import Grits.RuntimeFootprint Grits.proofs.RuntimeFacts Grits.proofs.Diamond Grits.proofs.Determinism Grits.proofs.ForkJoin.
 
 (* two top-level processes: a prints and closes; b prints, waits for a, prints again *)
 Definition demo_text : string := "prc[a] : 1 = print left; close self
@@ -67,4 +67,48 @@ Proof.
   exists d1, d2. split; [done|]. split; [done|]. split; [done|].
   revert E1 E2 H1 H2. vm_compute in E. injection E as <-. vm_compute.
   intros [= <-] [= <-] [= <-] [= <-]. discriminate.
+Qed.
+
+(* ------------------------------------------------------------------ the fork-join class is inhabited *)
+Definition hello_text : string := "type A = lin 1
+let hello() : A =
+    a : A <- new close self;
+    wait a;
+    print hello;
+    close self
+exec hello()".
+
+Definition par_text : string := "let leaf() : lin 1 = print leaf; close self
+prc[a] : lin 1 = x : lin 1 <- new leaf(); y : lin 1 <- new leaf(); print root; wait x; wait y; print joined; close self".
+
+Definition fj_program_b (s : string) : option bool :=
+  match accepted s with Some p => Some (fj_funs_b (p_funs p) && fj_cfg_b (init_config p)) | None => None end.
+
+Example demo_in_class : fj_program_b demo_text = Some true.
+Proof. vm_compute. reflexivity. Qed.
+Example hello_in_class : fj_program_b hello_text = Some true.
+Proof. vm_compute. reflexivity. Qed.
+Example par_in_class : fj_program_b par_text = Some true.
+Proof. vm_compute. reflexivity. Qed.
+
+(* an unconditional statement about one concrete accepted program, obtained from the general theorem
+   and ONE computed run: under EVERY scheduler oracle and every fuel >= 100 the program runs to
+   completion and prints a permutation of right, left, done *)
+Example demo_every_schedule :
+  exists p, accepted demo_text = Some p /\
+  forall pick f, (100 <= f)%nat ->
+    exists t, exec_run f pick Async (p_types p) (p_funs p) (init_config p) = RQuiescent t /\
+              labels t ≡ₚ ["right"; "left"; "done"].
+Proof.
+  destruct (accepted demo_text) as [p|] eqn:E; [|by vm_compute in E]. exists p. split; [done|].
+  intros pick f Hf.
+  assert (Hcls : fj_funs_b (p_funs p) && fj_cfg_b (init_config p) = true).
+  { pose proof demo_in_class as H. unfold fj_program_b in H. rewrite E in H. by injection H. }
+  apply andb_true_iff in Hcls as [HF Hc].
+  destruct (exec_run 100 pick_first Async (p_types p) (p_funs p) (init_config p)) as [t1| |] eqn:Er;
+    [|exfalso; revert Er; vm_compute in E; injection E as <-; by vm_compute
+     |exfalso; revert Er; vm_compute in E; injection E as <-; by vm_compute].
+  destruct (forkjoin_program_determinism p pick_first pick 100 f t1 HF Hc Er Hf) as (t2 & H2 & _ & Hl).
+  exists t2. split; [done|]. rewrite Hl.
+  pose proof demo_async_first as H1. unfold run_labels in H1. rewrite E, Er in H1. injection H1 as ->. done.
 Qed.
